@@ -6,7 +6,11 @@
    entries of every key sorted by stream index; M is the model's output in emission order with
    every run of equal values sorted by index (the heap's order among equal (key, value) pairs is
    unspecified); M carries "!TIE" if two different admissible heaps disagree after that.
-   For the predicates S is the set-theoretic boolean, M the model's. *)
+   For the predicates S is the set-theoretic boolean, M the model's.
+   The model is run over NON-INERT streams ([poisoned]: polled again after their None they yield the
+   key FFFEFDFC, value 57005), like the user streams of the implementation side; M ends in
+   "|repoll=<n>", n = the number of polls the model made on streams that had already returned None
+   (summed over the streams; the theorems say 0). *)
 let parse_stream (s : string) =
   if s = "_" then []
   else List.map (fun e -> match split_on ':' e with
@@ -41,29 +45,34 @@ let handle (line : string) : string =
   match split_on '\t' line with
   | [op; _kinds; st] ->
     let ss = parse_streams st in
+    let xs = List.map poisoned ss in
+    let repolls polls = List.fold_left (fun a (_, again) -> a + int_of_nat again) 0 polls in
+    let repoll_of r = match r with Some (Ok (_, polls)) -> "|repoll=" ^ string_of_int (repolls polls) | _ -> "" in
     let ops spec run =
-      let m1 = run pop_min_left ss and m2 = run pop_min_right ss in
-      let sh r = show_fres (fun l -> show_items (List.map (fun (k, o) -> (k, tie_canon o)) l)) r in
+      let m1 = run pop_min_left xs and m2 = run pop_min_right xs in
+      let sh r = show_fres (fun (l, _) -> show_items (List.map (fun (k, o) -> (k, tie_canon o)) l)) r in
       let a = sh m1 and b = sh m2 in
-      let cs r = show_fres (fun l -> show_items (canon l)) r in
+      let cs r = show_fres (fun (l, _) -> show_items (canon l)) r in
       (* the spec side never panics; a panic of the model is shown on both sides only for the
          contract-less family (difference of no streams) *)
       let s = if op = "difference" && ss = [] then "PANIC" else show_items (spec ss) in
-      "S:" ^ s ^ "\tM:" ^ a ^ (if a = b && cs m1 = cs m2 then "" else "!TIE") in
+      "S:" ^ s ^ "\tM:" ^ a ^ (if a = b && cs m1 = cs m2 then "" else "!TIE")
+      ^ (let r1 = repoll_of m1 and r2 = repoll_of m2 in if r1 = r2 then r1 else r1 ^ "!" ^ r2) in
     let pred spec run =
-      (match ss with
-       | [s0; s1] ->
+      (match ss, xs with
+       | [s0; s1], [x0; x1] ->
          let b2s b = if b then "true" else "false" in
-         "S:" ^ b2s (spec s0 s1) ^ "\tM:" ^ show_fres b2s (run pop_min_left s0 s1)
+         let m = run pop_min_left (n_of_int (List.length s0)) x0 x1 in
+         "S:" ^ b2s (spec s0 s1) ^ "\tM:" ^ show_fres (fun (b, _) -> b2s b) m ^ repoll_of m
        | _ -> "BADCASE") in
     (match op with
-     | "union" -> ops spec_union run_union
-     | "intersection" -> ops (spec_sel OpInter) (fun p -> run_sel p OpInter)
-     | "symdiff" -> ops (spec_sel OpSymdiff) (fun p -> run_sel p OpSymdiff)
-     | "difference" -> ops spec_difference run_difference
-     | "disjoint" -> pred spec_disjoint is_disjoint
-     | "subset" -> pred spec_subset (fun p s0 s1 -> is_subset p (n_of_int (List.length s0)) s0 s1)
-     | "superset" -> pred spec_superset (fun p s0 s1 -> is_superset p (n_of_int (List.length s0)) s0 s1)
+     | "union" -> ops spec_union run_union_on
+     | "intersection" -> ops (spec_sel OpInter) (fun p -> run_sel_on p OpInter)
+     | "symdiff" -> ops (spec_sel OpSymdiff) (fun p -> run_sel_on p OpSymdiff)
+     | "difference" -> ops spec_difference run_difference_on
+     | "disjoint" -> pred spec_disjoint (fun p _ x0 x1 -> is_disjoint_on p x0 x1)
+     | "subset" -> pred spec_subset is_subset_on
+     | "superset" -> pred spec_superset is_superset_on
      | _ -> "BADCASE")
   | _ -> "BADCASE"
 let () = main_loop handle
